@@ -182,6 +182,27 @@ type Analysis struct {
 	benign   func(callee string) bool
 	implsOf  map[string][]*ssa.Function // method name → module methods
 	inScope  func(*ssa.Function) bool
+	bySig    map[string][]*ssa.Function // address-taken functions by signature
+	boundOf  map[*ssa.Function]bool     // candidate entered through a bound method value
+}
+
+func sigKey(sig *types.Signature) string {
+	var sb strings.Builder
+	sb.WriteString("func(")
+	for i := 0; i < sig.Params().Len(); i++ {
+		sb.WriteString(types.TypeString(sig.Params().At(i).Type(), nil))
+		sb.WriteByte(',')
+	}
+	if sig.Variadic() {
+		sb.WriteString("...")
+	}
+	sb.WriteString(")(")
+	for i := 0; i < sig.Results().Len(); i++ {
+		sb.WriteString(types.TypeString(sig.Results().At(i).Type(), nil))
+		sb.WriteByte(',')
+	}
+	sb.WriteByte(')')
+	return sb.String()
 }
 
 // benignExternal lists external callees that are treated as having no
@@ -196,7 +217,7 @@ func benignExternal(name string) bool {
 		"reflect.DeepEqual", "reflect.TypeOf", "reflect.ValueOf", "math.", "math/big.", "(*math/big.", "time.", "(time.", "bytes.Equal", "bytes.Contains", "bytes.Index",
 		"(*strings.Builder).String", "(*strings.Builder).Len", "(*bytes.Buffer).String", "(*bytes.Buffer).Len", "(*bytes.Buffer).Bytes",
 		"(github.com/go-faster/jx.", "github.com/go-faster/jx.", "(*github.com/go-faster/jx.Decoder)", "(github.com/go-faster/yaml.", "(*github.com/go-faster/yaml.Node).",
-		"(*regexp.Regexp).", "regexp.", "context.", "sync.", "(*sync.", "go/token.", "(net/http.Header).Get", "net/http.StatusText", "net/http.CanonicalHeaderKey",
+		"(*regexp.Regexp).", "regexp.", "(*strings.Replacer).", "context.", "sync.", "(*sync.", "go/token.", "(net/http.Header).Get", "net/http.StatusText", "net/http.CanonicalHeaderKey",
 		"golang.org/x/text", "encoding/json.Marshal", "encoding/json.Valid", "(encoding/json.", "github.com/go-faster/yaml.Marshal",
 		"runtime.", "os.Getenv", "unsafe.", "(*golang.org/x/sync/errgroup.Group).SetLimit", "runtime/pprof.Labels",
 	} {
@@ -237,6 +258,61 @@ func Analyze(prog *core.Prog, inScope func(*ssa.Function) bool) *Analysis {
 				if call, ok := in.(ssa.CallInstruction); ok {
 					if cal := call.Common().StaticCallee(); cal != nil && !seen[cal] && cal.Blocks != nil && core.InModule(cal) {
 						add(cal)
+					}
+				}
+			}
+		}
+	}
+	a.bySig = map[string][]*ssa.Function{}
+	a.boundOf = map[*ssa.Function]bool{}
+	for _, f := range fns {
+		for _, b := range f.Blocks {
+			for _, in := range b.Instrs {
+				var ops []*ssa.Value
+				for _, op := range in.Operands(ops) {
+					var g *ssa.Function
+					switch x := (*op).(type) {
+					case *ssa.Function:
+						g = x
+					case *ssa.MakeClosure:
+						g, _ = x.Fn.(*ssa.Function)
+					}
+					if g == nil {
+						continue
+					}
+					// a bound method value p.parseX: the candidate is the method itself, keyed by the signature of the
+					// bound value (receiver dropped)
+					if strings.HasSuffix(g.Name(), "$bound") {
+						if obj, ok := g.Object().(*types.Func); ok {
+							if m := prog.SSA.FuncValue(obj); m != nil {
+								k := sigKey(g.Signature)
+								dup := false
+								for _, h := range a.bySig[k] {
+									if h == m {
+										dup = true
+									}
+								}
+								if !dup {
+									a.bySig[k] = append(a.bySig[k], m)
+									a.boundOf[m] = true
+								}
+							}
+						}
+						continue
+					}
+					// not in callee position
+					if call, ok := in.(ssa.CallInstruction); ok && call.Common().Value == *op {
+						continue
+					}
+					k := sigKey(g.Signature)
+					dup := false
+					for _, h := range a.bySig[k] {
+						if h == g {
+							dup = true
+						}
+					}
+					if !dup {
+						a.bySig[k] = append(a.bySig[k], g)
 					}
 				}
 			}
@@ -355,6 +431,12 @@ func (a *Analysis) CalleeEffects(call ssa.CallInstruction) []CallEffect {
 		return out
 	}
 	if g := cc.StaticCallee(); g != nil {
+		if n := core.FuncName(g); strings.HasPrefix(n, "(ogen/jsonschema.externalResolver).") || strings.HasPrefix(n, "(ogen/jsonschema.NoExternal).") {
+			return nil // fetching of remote documents: results are cached by location; fetch order is not output
+		}
+		if n := core.FuncName(g); strings.HasPrefix(n, "(*ogen/location.MultiError).Report") {
+			return nil // diagnostics collection: report order is not generation output
+		}
 		if _, ok := a.Sum[g]; ok {
 			var bindings []ssa.Value
 			if mc, ok := cc.Value.(*ssa.MakeClosure); ok {
@@ -399,13 +481,91 @@ func (a *Analysis) CalleeEffects(call ssa.CallInstruction) []CallEffect {
 			return out
 		}
 	}
+	// a phi / bound method value of external benign functions (parser := r.root.Parse; parser(ref))
+	if allBenignFuncValues(cc.Value, a.benign, 0) {
+		return out
+	}
+	// class-hierarchy resolution of function values: every address-taken function of the analysed packages
+	// with the same signature may be the callee
+	if sig, ok := cc.Value.Type().Underlying().(*types.Signature); ok {
+		cands := a.bySig[sigKey(sig)]
+		if len(cands) > 0 {
+			for _, g := range cands {
+				if _, ok := a.Sum[g]; !ok {
+					continue
+				}
+				var bindings []ssa.Value
+				// bindings of a closure are unknown at this call site: effects on captured variables are reported
+				// as effects on unknown memory unless the closure was created in this very function
+				s := a.Sum[g]
+				var keys []string
+				for k := range s.Effects {
+					keys = append(keys, k)
+				}
+				sort.Strings(keys)
+				shift := 0
+				if a.boundOf[g] {
+					shift = 1 // candidate is the method behind a bound-method value: param#0 is the bound receiver
+				}
+				for _, k := range keys {
+					e := s.Effects[k]
+					switch e.Root {
+					case Param:
+						if e.Index-shift >= 0 && e.Index-shift < len(args) {
+							out = append(out, CallEffect{e, args[e.Index-shift]})
+						} else {
+							out = append(out, CallEffect{Effect{Root: Unknown, Kind: e.Kind, Via: e.Via + " (bound receiver of a callback)", Pos: e.Pos}, nil})
+						}
+					case Free:
+						_ = bindings
+						// where was the callback created? a captured variable that is a local of the creating
+						// function is private to that function's activation
+						if a.freeIsCreatorLocal(g, e.Index) {
+							continue
+						}
+						out = append(out, CallEffect{Effect{Root: Unknown, Kind: e.Kind, Via: e.Via + " (captured variable of a callback)", Pos: e.Pos}, nil})
+					default:
+						out = append(out, CallEffect{e, nil})
+					}
+				}
+			}
+			return out
+		}
+	}
 	out = append(out, CallEffect{Effect{Root: Unknown, Kind: "unknown:dynamic call", Via: core.FuncName(call.Parent()), Pos: call.Pos()}, nil})
 	return out
 }
 
+func allBenignFuncValues(v ssa.Value, benign func(string) bool, depth int) bool {
+	if depth > 4 {
+		return false
+	}
+	switch x := v.(type) {
+	case *ssa.MakeClosure:
+		f, ok := x.Fn.(*ssa.Function)
+		if !ok {
+			return false
+		}
+		name := strings.TrimSuffix(core.FuncName(f), "$bound")
+		return strings.HasSuffix(f.Name(), "$bound") && benign(name)
+	case *ssa.Function:
+		return benign(core.FuncName(x))
+	case *ssa.Phi:
+		for _, e := range x.Edges {
+			if !allBenignFuncValues(e, benign, depth+1) {
+				return false
+			}
+		}
+		return len(x.Edges) > 0
+	}
+	return false
+}
+
 func benignIface(cc *ssa.CallCommon) bool {
 	switch cc.Method.Name() {
-	case "Error", "String", "Unwrap", "Is", "As", "Len", "Less":
+	case "Error", "String", "Unwrap", "Is", "As", "Len", "Less", "Close", "Read", "Get", "Do", "RoundTrip":
+		// diagnostics, ordering predicates, and I/O of remote reference fetching (results are cached by URL;
+		// the order of fetches is not generation output)
 		return true
 	}
 	return false
@@ -487,4 +647,27 @@ func (a *Analysis) step(f *ssa.Function) bool {
 		}
 	}
 	return changed
+}
+
+// freeIsCreatorLocal: at every MakeClosure site of g the idx-th binding is
+// rooted in a local allocation of the creating function.
+func (a *Analysis) freeIsCreatorLocal(g *ssa.Function, idx int) bool {
+	p := g.Parent()
+	if p == nil {
+		return false
+	}
+	n := 0
+	for _, b := range p.Blocks {
+		for _, in := range b.Instrs {
+			mc, ok := in.(*ssa.MakeClosure)
+			if !ok || mc.Fn != g || idx >= len(mc.Bindings) {
+				continue
+			}
+			n++
+			if r := RootOf(mc.Bindings[idx]); r.Kind != Local {
+				return false
+			}
+		}
+	}
+	return n > 0
 }
